@@ -41,11 +41,15 @@ func TestVerifStress(t *testing.T) {
 		gor := []int{2, 3, 8, 16, 64}[rng.Intn(5)]
 		setBufSize = []int{1, 4, 64, 32 * 1024}[rng.Intn(4)]
 		metricsOn := rng.Intn(2) == 0
+		keyN := []int{4, 40, 40}[rng.Intn(3)] // few keys: many goroutines inside Set/Del of the same key
 		withCb := rng.Intn(3) != 0
 		var exits sync.Map  // value -> time of its OnExit
 		var valKey sync.Map // value -> key it was Set under
 		var dupExit, panics, stale, wrongKey, lostAccepted atomic.Int64
 		var accepted sync.Map // value -> true when its Set returned true
+		var deadline sync.Map // value -> expiration instant (sweep phase only)
+		var early atomic.Int64
+		var sweepPhase atomic.Bool
 		cfg := &Config[uint64, uint64]{
 			NumCounters:        []int64{2, 64, 1 << 12}[rng.Intn(3)],
 			MaxCost:            []int64{1, 50, 1000, 1 << 30}[rng.Intn(4)],
@@ -64,7 +68,13 @@ func TestVerifStress(t *testing.T) {
 					}
 				}
 			}
-			cfg.OnEvict = func(it *Item[uint64]) {}
+			cfg.OnEvict = func(it *Item[uint64]) {
+				if d, ok := deadline.Load(it.Value); ok && sweepPhase.Load() && time.Until(d.(time.Time)) > 10*time.Second {
+					if early.Add(1) == 1 {
+						fmt.Printf("stress early: round %d: value %d (key %d) evicted by the expiry sweep %v before its expiration\n", r, it.Value, it.Key, time.Until(d.(time.Time)))
+					}
+				}
+			}
 			cfg.OnReject = func(it *Item[uint64]) {}
 		}
 		c, err := NewCache(cfg)
@@ -109,7 +119,7 @@ func TestVerifStress(t *testing.T) {
 				}()
 				lr := rand.New(rand.NewSource(s))
 				for i := 0; i < opsPer; i++ {
-					k := uint64(lr.Intn(40))
+					k := uint64(lr.Intn(keyN))
 					call := lr.Intn(100)
 					name := ""
 					inflight.Store(g, [2]any{time.Now(), call})
@@ -191,6 +201,8 @@ func TestVerifStress(t *testing.T) {
 			t.Fatal("round timeout")
 		}
 		if r == rounds-1 {
+			sweepPhase.Store(true)
+			c.UpdateMaxCost(1 << 40) // no capacity eviction in this phase: every OnEvict comes from the expiry sweep
 			// sweep phase: many keys expire together; while the ticker-driven sweep reclaims them, other goroutines
 			// overwrite resident keys, delete expiring ones and read (lock order store shard <-> expiry index)
 			for k := uint64(1000); k < 5000; k++ {
@@ -231,7 +243,12 @@ func TestVerifStress(t *testing.T) {
 							v := next.Add(1)
 							kk := uint64(1000 + lr.Intn(4000))
 							valKey.Store(v, kk)
-							if c.SetWithTTL(kk, v, 1, time.Duration(1+lr.Intn(3))*time.Millisecond) {
+							ttl := time.Duration(1+lr.Intn(3)) * time.Millisecond
+							if lr.Intn(2) == 0 {
+								ttl = time.Hour // a re-write with a long TTL must survive the sweep of its old bucket
+								deadline.Store(v, time.Now().Add(ttl))
+							}
+							if c.SetWithTTL(kk, v, 1, ttl) {
 								accepted.Store(v, true)
 							}
 						}
@@ -255,6 +272,7 @@ func TestVerifStress(t *testing.T) {
 				t.Fatalf("hang: %s", stuck)
 			}
 			wg2.Wait()
+			sweepPhase.Store(false) // Close below releases everything through OnEvict
 		}
 		close(stopWatch)
 		c.Close()
@@ -269,6 +287,9 @@ func TestVerifStress(t *testing.T) {
 				}
 				return true
 			})
+		}
+		if early.Load() > 0 {
+			t.Fail()
 		}
 		if stale.Load() > 0 || wrongKey.Load() > 0 || lostAccepted.Load() > 0 {
 			fmt.Printf("stress counts: round %d stale=%d wrongkey=%d lost=%d\n", r, stale.Load(), wrongKey.Load(), lostAccepted.Load())
